@@ -167,6 +167,22 @@ func c07Pair(seed uint64, shape string) *lib.Pair {
 		}
 		p.Feat["old-sizes-decreasing+content-moved-from-bigger-file"] = true
 		return p
+	case "samesize":
+		// several optimized files whose OLD versions have exactly the same size (and different bytes)
+		p := &lib.Pair{Old: lib.NewBuild(), New: lib.NewBuild(), Feat: map[string]bool{}}
+		sz := int64(r.Range(40000, 200000))
+		for i := 0; i < 3; i++ {
+			d := lib.RandomBytes(sz, r.Uint64())
+			nd := append([]byte(nil), d...)
+			for k := 0; k < 4; k++ {
+				o := r.Intn(len(nd) - 300)
+				lib.FillRandom(nd[o:o+r.Range(1, 200)], r.Uint64())
+			}
+			p.Old.PutFile(fmt.Sprintf("level%d.bin", i), d)
+			p.New.PutFile(fmt.Sprintf("level%d.bin", i), nd)
+		}
+		p.Feat["equal-sized-old-files"] = true
+		return p
 	case "single":
 		// exactly one file is optimized (the others are unchanged or new)
 		p := &lib.Pair{Old: lib.NewBuild(), New: lib.NewBuild(), Feat: map[string]bool{}}
@@ -207,7 +223,7 @@ func c07Cases(tier string, seed uint64, flavor string) []lib.Case {
 	var cases []lib.Case
 	r := lib.NewRng(lib.Mix(seed, 77))
 	for i := 0; i < npairs; i++ {
-		shape := []string{"tiny", "tailedit", "generic", "shares", "selfsimilar", "larger", "tiny", "shrinking", "single"}[i%9]
+		shape := []string{"tiny", "tailedit", "generic", "shares", "selfsimilar", "larger", "tiny", "shrinking", "single", "samesize"}[i%10]
 		s := c07Spec{PairSeed: lib.Mix(seed, 7, uint64(i)), Shape: shape, InComp: inComps[i%3]}
 		parts := []int{}
 		for p := 0; p <= 16; p++ {
